@@ -160,7 +160,9 @@ def run(ctx):
         ctx.oblige(bool(trunc) or not from_end, "C17.2", "Wal::append:seek-from-end",
                    "after a torn tail, new commits are appended behind the garbage and the reader never reaches them: transactions committed after "
                    "recovery are lost on the next reopen", c.loc())
-    ctx.floor("C17.2", "seek sites", len(seeks), 1)
+    ctx.oblige(bool(seeks), "C17.2", "Wal::append:no-positioning",
+               "Wal::append does not position the file cursor itself: it writes wherever the cursor was left, and truncating a torn tail with set_len on "
+               "open does not move the cursor — the next record lands behind a zero-filled hole and is cut off by the following open", ab.file)
 
     # clause 3
     allocs = [c for c in b.calls() if c.name in FROM_ELEM or c.name.startswith("alloc::vec::from_elem")]
